@@ -68,6 +68,9 @@ TECHNIQUE = {
     "C06": _KANI + _MIR_HANDLE,
     "C03": _KANI + ("; plus z3 queries over a symbolic execution of the rustc MIR of VarlinkService::new and VarlinkService::call with "
                     "contract models for HashMap (the populated interface table), witnesses replayed natively"),
+    "C04": _KANI + ("; plus z3 queries over a symbolic execution of the rustc MIR of MethodCall::oneway and MethodCall::send (the client "
+                    "clause: one send flagged oneway, no read, the stream stays with the connection), confirmed natively on a real "
+                    "connection with replies waiting"),
     "C05": _KANI + ("; plus z3 queries over a symbolic execution of the rustc MIR of <MethodCall as Iterator>::next, MethodCall::more, "
                     "MethodCall::call and MethodCall::recv (the client half: one step from an arbitrary state of the continues "
                     "flag and the stream slots, callees replaced by contract models), witnesses confirmed natively on real "
@@ -77,7 +80,8 @@ TECHNIQUE = {
            "stop flag and the busy count an arbitrary value, time = the sum of the waits that timed out, idle_timeout symbolic; "
            "bounded by the number of accept calls per run; per path `path condition and not property` must be unsat; confirmed "
            "natively by timed runs of the real listen",
-    "C07": "z3 (SMT) over a path-by-path symbolic execution of the rustc MIR of MethodCall::send and MethodCall::recv (dumped from "
+    "C07": "z3 (SMT) over a path-by-path symbolic execution of the rustc MIR of MethodCall::send and MethodCall::recv and of the entry "
+           "points call / more / oneway / upgrade / Iterator::next, and of <ErrorKind as From<Reply>>::from (dumped from "
            "/repo on every run) from an arbitrary state of the connection's and the call's stream slots, callees replaced by "
            "contract models; per path the query `path condition and not property` must be unsat; a model is a slot state + call "
            "mode / reply shape, replayed on real Connection / MethodCall objects over in-memory streams",
